@@ -220,8 +220,9 @@ def make_data(p, seed=0):
                 for n in range(max(1, nmin - 2), nmin + 3):
                     for dname, X in _datasets(n, p, seed).items():
                         inf = dict(info, det=name, n=n, data=dname)
-                        acc.concrete("data.valid_runs_or_short_raises_ValueError", classify(name, make, nmin, kind, kw, pd.DataFrame(X), False) is None,
-                                     dict(inf, nan_at=None, outcome=classify(name, make, nmin, kind, kw, pd.DataFrame(X), False)))
+                        res0 = classify(name, make, nmin, kind, kw, pd.DataFrame(X), False)
+                        acc.concrete("data.valid_runs_or_short_raises_ValueError", res0 is None, dict(inf, nan_at=None, outcome=res0))
+                        acc.inc("translator_ok")      # native run of the real detector with its built-in scorer
                         if dname == "ramp":
                             for pos in range(n):
                                 Xn = X.copy()
